@@ -181,7 +181,38 @@ var c06Reqs = []c06Req{
 	{"only-b-lit", `{ onlyB echo(i:1) }`, "", nil, nil},
 	{"introspect", `{ __type(name:"Kind") { name kind } }`, "", nil, nil},
 	{"introspect-2", `{ __type(name:"Filter") { name kind } }`, "", nil, nil},
+	// one document in two layouts, with a field error: the error locations are
+	// those of the text that was sent
+	{"layout-flat", `{ x1 leafy { s sNN } x2 }`, "", nil, map[string]string{"R@leafy.sNN": FErr, "R@x2": FErr}},
+	{"layout-indented", "{\n  x1\n  leafy {\n    s\n    sNN\n  }\n\n  x2 # the last one\n}\n", "", nil, map[string]string{"R@leafy.sNN": FErr, "R@x2": FErr}},
+	{"layout-commas", `{ x1, leafy { s, sNN }, x2 }`, "", nil, map[string]string{"R@leafy.sNN": FErr, "R@x2": FErr}},
+	// texts that differ inside a string only (white space, '#', quotes in block strings)
+	{"blockstr-quote-1", `{ echo(s:"""say "a   b" now""") }`, "", nil, nil},
+	{"blockstr-quote-2", `{ echo(s:"""say "a b" now""") }`, "", nil, nil},
+	{"blockstr-hash-1", "{ echo(s:\"\"\"a \" # b\n c\"\"\") x1 }", "", nil, nil},
+	{"blockstr-hash-2", "{ echo(s:\"\"\"a \" # d\n c\"\"\") x1 }", "", nil, nil},
+	{"str-spaces-1", `{ echo(s:"a  b") }`, "", nil, nil},
+	{"str-spaces-2", `{ echo(s:"a b") }`, "", nil, nil},
+	{"str-hash-1", "{ echo(s:\"a # b\") x1 }", "", nil, nil},
+	{"str-hash-2", "{ echo(s:\"a # c\") x1 }", "", nil, nil},
+	{"comment-quote-1", "{ x1 # \"\n echo(s:\"p  q\") }", "", nil, nil},
+	{"comment-quote-2", "{ x1 # \"\n echo(s:\"p q\") }", "", nil, nil},
+	// a value whose runtime type belongs to the schema through the explicit type
+	// list only (the "retype" operation swaps in a schema around the same root
+	// objects with another type list)
+	{"retyped-node", `{ node(as:"D") { id kind } nodes(n:2, as:"D") { id } x1 }`, "", nil, nil},
+	{"retyped-frag", `{ node(as:"D") { id ... on D { dOnly } } }`, "", nil, nil},
+	{"retyped-introspect", `{ __type(name:"Node") { possibleTypes { name } } }`, "", nil, nil},
 }
+
+var c06RetypedBase = func() int {
+	for i, r := range c06Reqs {
+		if r.Name == "retyped-node" {
+			return i
+		}
+	}
+	panic("c06: retyped-node missing")
+}()
 
 type C06Op struct {
 	Kind   string `json:"kind"` // get | reexec | reset | swap
@@ -287,8 +318,18 @@ func (p c06) Gen(seed uint64, enum int, tier string) json.RawMessage {
 		}
 		work = append(work, len(c06Reqs), len(c06Reqs)+1)
 	}
+	retype := r.Chance(10)
+	if retype {
+		// schema replacement around the same root objects: the working set holds
+		// requests whose answer depends on the explicit type list
+		work = append(work[:1+r.Intn(len(work))], c06RetypedBase, c06RetypedBase+1, c06RetypedBase+2, c06RetypedBase+r.Intn(3))
+	}
 	var gets []int
 	for i := 0; i < n; i++ {
+		if retype && len(gets) > 0 && r.Chance(22) {
+			s.Ops = append(s.Ops, C06Op{Kind: "retype", Schema: r.Intn(2)})
+			continue
+		}
 		switch x := r.Intn(100); {
 		case x < 70 || len(gets) == 0:
 			req := work[r.Intn(len(work))]
@@ -418,9 +459,10 @@ func (c06) Run(t TestingT, scn json.RawMessage, tape *Tape) *Outcome {
 		limit = 1024
 	}
 	type got struct {
-		pr  graphql.PlanResult
-		w   *World
-		req int
+		pr     graphql.PlanResult
+		w      *World
+		req    int
+		direct bool // prepared by PlanQuery from the caller's own document
 	}
 	slots := map[int]got{}
 	var lastHits, lastMisses uint64
@@ -454,7 +496,7 @@ func (c06) Run(t TestingT, scn json.RawMessage, tape *Tape) *Outcome {
 				if pl, err := graphql.PlanQuery(&w.Schema, doc, rq.Op); err != nil {
 					res = MarshalResult(&graphql.Result{Errors: gqlerrors.FormatErrors(err)})
 				} else {
-					slots[i] = got{graphql.PlanResult{Plan: pl}, w, op.Req}
+					slots[i] = got{graphql.PlanResult{Plan: pl}, w, op.Req, true}
 					res = MarshalResult(graphql.ExecutePlan(pl, graphql.ExecuteParams{Schema: w.Schema, Args: vars, Context: c06Ctx(w, rq.Query, rq.Faults)}))
 					o.Probe("plan-prepared-directly")
 				}
@@ -469,6 +511,12 @@ func (c06) Run(t TestingT, scn json.RawMessage, tape *Tape) *Outcome {
 			cache.Reset()
 			o.Fire("reset", 1)
 			log = append(log, "reset")
+		case "retype":
+			// a new schema value around the same root objects and callbacks, with
+			// another explicit type list
+			worlds[op.Schema] = worlds[op.Schema].Retyped()
+			o.Fire("schema-retype", 1)
+			log = append(log, fmt.Sprintf("retype %d (withD=%v)", op.Schema, worlds[op.Schema].WithD))
 		case "swap":
 			// a rebuilt schema of the same shape: new pointer, same id
 			worlds[op.Schema] = NewWorld(worlds[op.Schema].ID)
@@ -482,7 +530,7 @@ func (c06) Run(t TestingT, scn json.RawMessage, tape *Tape) *Outcome {
 				vars = rq.Vars[op.Vars]
 			}
 			pr := cache.Get(&w.Schema, rq.Query, rq.Op)
-			slots[i] = got{pr, w, op.Req}
+			slots[i] = got{pr, w, op.Req, false}
 			if cache != nil && !seenSchema[&w.Schema] {
 				// nothing was ever stored for this schema: whatever the cache
 				// holds belongs to other schemas and must not be served
@@ -504,7 +552,7 @@ func (c06) Run(t TestingT, scn json.RawMessage, tape *Tape) *Outcome {
 			}
 			want := c06Scratch(w, rq, vars)
 			log = append(log, fmt.Sprintf("get %s@%s", rq.Name, w.ID))
-			if res != want && stripLocations(res) == stripLocations(want) {
+			if res != want && sc.Normalize && stripLocations(res) == stripLocations(want) {
 				// the recorded finding F-C06-5: the plan shared under Normalize
 				// carries the AST - and so the error locations - of the request
 				// that created it
@@ -529,7 +577,7 @@ func (c06) Run(t TestingT, scn json.RawMessage, tape *Tape) *Outcome {
 			want := c06Scratch(g.w, rq, vars)
 			o.Probe("plan-reexecuted")
 			log = append(log, fmt.Sprintf("reexec %s", rq.Name))
-			if res != want && stripLocations(res) == stripLocations(want) {
+			if res != want && sc.Normalize && !g.direct && stripLocations(res) == stripLocations(want) {
 				o.Violate("C06/error-locations-of-other-request", "op %d: re-executing the plan of %q reports the error locations of another request's text\n  plan: %s\n fresh: %s", i, rq.Query, res, want)
 			} else if res != want {
 				o.Violate("C06/reexec-differs@"+rq.Name, "op %d: re-executing the plan of %q with vars %v differs from executing it from scratch\n  plan: %s\n fresh: %s\nhistory: %s",
@@ -634,7 +682,7 @@ func c06RunInterleaved(t TestingT, sc *C06Scn, scn json.RawMessage, tape *Tape) 
 				continue
 			}
 			reqName, _, _ := strings.Cut(outs[fmt.Sprintf("d%d", i)], "@")
-			if stripLocations(got) == stripLocations(want) {
+			if sc.Normalize && stripLocations(got) == stripLocations(want) {
 				o.Violate("C06/error-locations-of-other-request", "interleaved %s: error locations of another request's text\n cache: %s\n fresh: %s", outs[fmt.Sprintf("d%d", i)], got, want)
 			} else {
 				o.Violate("C06/differs@"+reqName, "interleaved clients on two same-shape schemas: Get+ExecutePlan of %s differs from executing it from scratch\n cache: %s\n fresh: %s", outs[fmt.Sprintf("d%d", i)], got, want)
